@@ -712,6 +712,7 @@ func (e *Engine) knownPanicSite(st *State, ok *Term, kind string, ins ssa.Instru
 			if r == Sat {
 				inputs, _ := e.decodeModel(vals)
 				e.KnownSeen[kp.id] = fmt.Sprintf("panic (%s) at %s, e.g. %v", kind, pos, compactInputs(inputs))
+				e.noteKnown(kp.id, "panic", kind, pos, inputs)
 			}
 			return true
 		}
